@@ -351,7 +351,7 @@ def run(ctx):
         kindsets, assigns, shapes, configs = rd("kindsets.ndjson"), rd("assigns.ndjson"), rd("shapes.ndjson"), rd("configs.ndjson")
         if not kindsets or not assigns or not shapes or not configs:
             raise vlib.Inconclusive("Reset_Gen produced no cases")
-        hist, cover = compose_histories(ctx, kindsets, assigns, shapes, configs, ctx.pick(44, 400))
+        hist, cover = compose_histories(ctx, kindsets, assigns, shapes, configs, ctx.pick(72, 400))
         low = lownofile_histories(ctx, kindsets, assigns, configs)
         ctx.log("reset: %d kind sets x %d assignments x %d shapes x %d configurations enumerated; %d histories (%d covering) + %d under a low descriptor limit" % (
             len(kindsets), len(assigns), len(shapes), len(configs), len(hist), cover, len(low)))
